@@ -169,10 +169,10 @@ class SLCDriver(CIPDriver):
             UINT.encode(next(self._sequence)),  # transaction identifier
             SLC_FNC_READ,  # function code
             USINT.encode(PCCC_DATA_SIZE[_tag["file_type"]] * _tag["element_count"]),  # byte size
-            USINT.encode(int(_tag["file_number"])),
+            _address_field(int(_tag["file_number"])),
             PCCC_DATA_TYPE[_tag["file_type"]],
-            USINT.encode(int(_tag["element_number"])),
-            USINT.encode(int(_tag.get("pos_number", 0))),  # sub-element number
+            _address_field(int(_tag["element_number"])),
+            _address_field(int(_tag.get("pos_number", 0))),  # sub-element number
         ]
 
         request = SendUnitDataRequestPacket(self._sequence)
@@ -234,10 +234,10 @@ class SLCDriver(CIPDriver):
             UINT.encode(next(self._sequence)),
             SLC_FNC_WRITE,
             USINT.encode(_tag["data_size"] * _tag["element_count"]),
-            USINT.encode(int(_tag["file_number"])),
+            _address_field(int(_tag["file_number"])),
             PCCC_DATA_TYPE[_tag["file_type"]],
-            USINT.encode(int(_tag["element_number"])),
-            USINT.encode(int(_tag.get("pos_number", 0))),
+            _address_field(int(_tag["element_number"])),
+            _address_field(int(_tag.get("pos_number", 0))),
             _value,
         ]
         request = SendUnitDataRequestPacket(self._sequence)
@@ -507,6 +507,11 @@ def _get_sys0_info(plc_type):
             "size_element": b"\x23",
             "size_len": b"\x04",
         }
+
+
+def _address_field(value: int) -> bytes:
+    """file, element and sub-element numbers are one byte up to 254, 0xFF announces a 16-bit number"""
+    return USINT.encode(value) if value < 255 else b"\xff" + UINT.encode(value)
 
 
 def _parse_read_reply(tag, data) -> Tag:
